@@ -163,6 +163,10 @@ type ssConn struct {
 	rxCrypto *ssCryptoState
 
 	ticketStore *ssTicketStore
+
+	// readErr is a fatal read error that is held back till the payload that
+	// was decoded before it has been handed over.
+	readErr error
 }
 
 type ssRxState struct {
@@ -177,6 +181,10 @@ func (conn *ssConn) Read(b []byte) (int, error) {
 	var err error
 	// If the receive payload buffer is empty, consume data off the network.
 	for conn.receiveDecodedBuffer.Len() == 0 {
+		if conn.readErr != nil {
+			// Everything decoded before the error has been handed over.
+			return 0, conn.readErr
+		}
 		if err = conn.readPackets(); err != nil {
 			break
 		}
@@ -186,6 +194,11 @@ func (conn *ssConn) Read(b []byte) (int, error) {
 	var n int
 	if conn.receiveDecodedBuffer.Len() > 0 {
 		n, _ = conn.receiveDecodedBuffer.Read(b)
+		if err != nil && conn.receiveDecodedBuffer.Len() > 0 {
+			// b was too small for all of the decoded data: report the error
+			// once the rest has been read, not with the first part.
+			conn.readErr, err = err, nil
+		}
 	}
 	return n, err
 }
@@ -514,7 +527,7 @@ func newScrambleSuitClientConn(conn net.Conn, tStore *ssTicketStore, ca *ssClien
 	dist := probdist.New(seed, minLenDistLength, maxLenDistLength, true)
 
 	// Allocate the client structure.
-	c := &ssConn{conn, false, dist, bytes.NewBuffer(nil), bytes.NewBuffer(nil), ssRxState{}, nil, nil, tStore}
+	c := &ssConn{conn, false, dist, bytes.NewBuffer(nil), bytes.NewBuffer(nil), ssRxState{}, nil, nil, tStore, nil}
 
 	// Start the handshake timeout.
 	deadline := time.Now().Add(clientHandshakeTimeout)
